@@ -1,6 +1,7 @@
 //go:build verif
 
-// zunit: component-level correspondence drivers.  Compiled INTO /repo's module through
+// Common driver framework, overlaid into EVERY harness binary directory (harness/z*/) by lib/vlib.py.
+// zunit & co: component-level correspondence drivers.  Compiled INTO /repo's module through
 // `go build -tags verif -overlay` (virtual path internal/verifharness/zunit), so that it can
 // import internal packages and the export shims.  Each driver generates inputs from one
 // SplitMix64 state, runs the real implementation on them and writes Coq case files that the
@@ -61,6 +62,9 @@ type Driver struct {
 
 var drivers = map[string]*Driver{}
 
+// subcommands are non-driver entry points of a binary (e.g. child processes), registered in init().
+var subcommands = map[string]func(args []string){}
+
 func register(d *Driver) { drivers[d.Name] = d }
 
 type Meta struct {
@@ -87,8 +91,8 @@ func main() {
 		os.Exit(2)
 	}
 	name := os.Args[1]
-	if name == "pipechild" {
-		runPipeChild(os.Args[2])
+	if sc, ok := subcommands[name]; ok {
+		sc(os.Args[2:])
 		return
 	}
 	d, ok := drivers[name]
